@@ -1,6 +1,8 @@
 import GenjaxModel.Model.Vmap
 import GenjaxModel.Proofs.GfiCohInv
 import GenjaxModel.Proofs.GfiWeight
+import GenjaxModel.Proofs.VmapRule
+import GenjaxModel.Proofs.VmapRuleNest
 /-!
 # C08 — modular_vmap and Vmap are lane-wise maps, for densities and for sampling
 
@@ -12,8 +14,27 @@ Two layers.
   the mapped axis after the site's own sample_shape, so that after jax.vmap moves it to the front
   the result has the lane axis first, for every sample_shape and lane count; the pre-repair rule
   (always axis 0) does so only for an empty sample_shape (proved counterexample).
-Lane-wise *parameter pairing* for per-lane shapes of differing rank is an open finding (not
-claimed); independence of the lanes' draws is the sampler/PRNG contract (C07).
+* Value level (`Model/VmapRule.lean`, theorems `C08_rule_*` at the end of this file): arrays as
+  `shape × (index → value)`, the keyful sampler contract (ONE call returns `sample_shape ++
+  broadcast(parameter shapes)`, entry at position p drawn from the parameters at the broadcast index
+  of p) and the batching rule exactly as `VmapBatchHandler._handle_modular_vmap` is today (drop the
+  dummy, `static_dim_length`, move every mapped axis to the front, re-build args / kwargs, extend
+  `sample_shape` when nothing is mapped, one call, declared axis, `jax.vmap` moves it to the
+  front).  `C08_rule_lanewise`: for every signature, positional / keyword mix, `in_axes`,
+  `sample_shape` and axis size, lane i of the result is what the un-mapped site draws from lane
+  i's parameter slices, at lane-specific positions of the one call (`C08_rule_one_call`,
+  `C08_rule_positions_distinct`: distinct entries, hence — C07 — distinct randomness), provided all
+  mapped parameters have the maximal per-lane rank.  Outside that region the open finding
+  `vmap-differing-rank` is a proved counterexample (`C08_rule_differing_rank_cex`), as are the two
+  repaired defects (`C08_rule_kwargs_positional_cex`: fix b0e536c, `C08_rule_axis_cex`: fix 72f5066).
+  Nests of maps (`Model/VmapRuleNest.lean`: the rule applied innermost level first, `jax.vmap` of
+  the deterministic `moveaxis` modelled lane-wise, the staged transposes of the enclosing program):
+  `C08_rule_nest_one_level` (with one level it IS the one-level model, for every `Cfg`) and the
+  evaluated instances `C08_rule_nest_examples` (a repeat inside a map and a doubly mapped site are
+  lane-wise; a lane-wise scalar next to an inner-mapped vector is the second form of the open
+  finding).  A general lane-wise theorem for nests is NOT proved; the nest model is tied to the
+  code by the differential run only.
+Independence of the lanes' draws is the sampler/PRNG contract (C07).
 -/
 namespace Genjax
 
@@ -67,4 +88,155 @@ theorem C08_layout_asis_cex :
   decide
 
 end Vmap
+
+namespace VmapRule
+open Ex
+
+variable {ν α β κ : Type} [DecidableEq ν]
+
+/-- **the sample batching rule is lane-wise** (current code, `Cfg.spec`).  For every sampler
+    signature, every positional / keyword mix of the site's parameters, every `in_axes` (each
+    parameter mapped along any of its axes, or not mapped), every `sample_shape` and axis size n:
+    if every mapped parameter has the maximal per-lane rank (`LaneAligned`: equal per-lane ranks,
+    un-mapped parameters of at most that rank — scalars, constants) and the un-mapped site is
+    defined on the lanes' slices (`laneBatchShape s = some B`: the call binds and the per-lane shapes
+    broadcast to B), then the vectorised site returns an array R of shape `n :: sample_shape ++ B`
+    (lane axis first) and lane i of R IS the array the un-mapped site returns on lane i's
+    parameter slices, each entry drawn at the lane-specific position `p.insertIdx (laneAxis s) i`
+    of the ONE sampler call: `R[i][p] = site key (p with i inserted) (slice_i params at b(p))`. -/
+theorem C08_rule_lanewise (site : κ → List Nat → List (Option α) → β) (key : κ) (s : Site ν α)
+    (n : Nat) (B : List Nat) (hv : s.Valid n) (hal : s.LaneAligned)
+    (hB : laneBatchShape s = some B) :
+    ∃ R, vmapSite Cfg.spec site key s n = some R ∧ R.shape = n :: (s.sampleShape ++ B) ∧
+      ∀ i, i < n → ∃ L,
+        laneDraw (fun k p v => site k (p.insertIdx (laneAxis s) i) v) key s i = some L ∧
+        L.shape = s.sampleShape ++ B ∧
+        ∀ p, p.length = (s.sampleShape ++ B).length → R.get (i :: p) = L.get p :=
+  rule_lanewise site key s n B hv hal hB
+
+/-- non-vacuity: `sample_shape=(2,)`, a positional parameter with `in_axes=1`, a keyword parameter
+    with `in_axes=0`, a constant keyword parameter, 3 lanes — the hypotheses hold, and the result is
+    (final index order (lane, s, b); each entry = (position in the one call, parameter values)) -/
+example : mixed.Valid 3 ∧ mixed.LaneAligned ∧ laneBatchShape mixed = some [2] := mixed_hyps
+example : ((vmapSite Cfg.spec probeSite () mixed 3).map (·.entries)).map (·.take 4) =
+    some [([0, 0, 0], [some 11, some 7, some 11]), ([0, 0, 1], [some 21, some 7, some 12]),
+          ([1, 0, 0], [some 11, some 7, some 11]), ([1, 0, 1], [some 21, some 7, some 12])] ∧
+    (laneDraw probeSite () mixed 0).map (·.entries) =
+    some [([0, 0], [some 11, some 7, some 11]), ([0, 1], [some 21, some 7, some 12]),
+          ([1, 0], [some 11, some 7, some 11]), ([1, 1], [some 21, some 7, some 12])] := by decide
+
+/-- the sampler is called ONCE; the returned array carries the lanes at axis `laneAxis s` (after the
+    site's own sample_shape when a parameter is mapped, in front otherwise) and that is the axis
+    the rule declares to `jax.vmap` -/
+theorem C08_rule_one_call (site : κ → List Nat → List (Option α) → β) (key : κ) (s : Site ν α)
+    (n : Nat) (B : List Nat) (hv : s.Valid n) (hal : s.LaneAligned)
+    (hB : laneBatchShape s = some B) (hn : n ≠ 0) :
+    ∃ res, rule Cfg.spec site key s n = some (res, some (laneAxis s)) ∧
+      res.shape = (s.sampleShape ++ B).insertIdx (laneAxis s) n :=
+  rule_one_call site key s n B hv hal hB hn
+
+omit [DecidableEq ν] in
+/-- the positions read by the lanes, `(i, p) ↦ p.insertIdx (laneAxis s) i`, are in-range entries of
+    the one returned array and pairwise distinct; by `C07_vectorised_draws_distinct` (every entry of
+    every sampler call of a seeded run has its own (key, position) coordinate) no two
+    (lane, s, b) share randomness.  `lanePos_one_level`: for a site without parameter batch shape
+    this is the position `Seed.lanePos` of the C07 model. -/
+theorem C08_rule_positions_distinct (s : Site ν α) (n : Nat) (B : List Nat) :
+    (∀ i p, i < n → p ∈ Seed.indices (s.sampleShape ++ B) →
+      p.insertIdx (laneAxis s) i ∈ Seed.indices ((s.sampleShape ++ B).insertIdx (laneAxis s) n)) ∧
+    (∀ i i' p p', p ∈ Seed.indices (s.sampleShape ++ B) → p' ∈ Seed.indices (s.sampleShape ++ B) →
+      p.insertIdx (laneAxis s) i = p'.insertIdx (laneAxis s) i' → i = i' ∧ p = p') :=
+  rule_positions s n B
+
+/-- the position of lane i is the one the C07 model assigns (one level, no parameter batch shape) -/
+theorem C08_rule_position_is_C07_lanePos (n i : Nat) (batched : Bool) (o : List Nat) :
+    Seed.lanePos [(n, batched)] [i] o = o.insertIdx (if batched then o.length else 0) i :=
+  lanePos_one_level n i batched o
+
+/-- proved counterexample for the code BEFORE fix b0e536c (`kwargsAsKeywords = false`):
+    `bernoulli(probs=p)` under a 2-lane map — the keyword parameter lands in the first positional
+    slot (`logits`), the current code keeps it in its own slot -/
+theorem C08_rule_kwargs_positional_cex :
+    (vmapSite Cfg.preKwargs probeSite () kwOnly 2).map (·.entries) =
+      some [([0], [some 1, none]), ([1], [some 2, none])] ∧
+    (vmapSite Cfg.spec probeSite () kwOnly 2).map (·.entries) =
+      some [([0], [none, some 1]), ([1], [none, some 2])] ∧
+    (laneDraw probeSite () kwOnly 1).map (·.entries) = some [([], [none, some 2])] := by decide
+
+/-- proved counterexample for the code BEFORE fix 72f5066 (`moveMappedAxes = false`,
+    `axisAfterSampleShape = false`): a vector-per-lane parameter mapped with `in_axes=1` next to one
+    mapped with `in_axes=0` — lane 0 reads row 0 `[11, 12]` of the first parameter instead of its
+    column 0 `[11, 21]`; the current code pairs column i with lane i (the site is inside the
+    region of `C08_rule_lanewise`) -/
+theorem C08_rule_axis_cex :
+    (axis1.Valid 2 ∧ axis1.LaneAligned ∧ laneBatchShape axis1 = some [2]) ∧
+    (vmapSite Cfg.preAxis probeSite () axis1 2).map (·.entries) =
+      some [([0, 0], [some 11, some 51]), ([0, 1], [some 12, some 52]),
+            ([1, 0], [some 21, some 61]), ([1, 1], [some 22, some 62])] ∧
+    (vmapSite Cfg.spec probeSite () axis1 2).map (·.entries) =
+      some [([0, 0], [some 11, some 51]), ([0, 1], [some 21, some 52]),
+            ([1, 0], [some 12, some 61]), ([1, 1], [some 22, some 62])] ∧
+    (laneDraw probeSite () axis1 0).map (·.entries) =
+      some [([0], [some 11, some 51]), ([1], [some 21, some 52])] :=
+  ⟨axis1_hyps, by decide, by decide, by decide⟩
+
+/-- the OPEN finding `vmap-differing-rank` (current code): per lane a scalar `loc` and a vector
+    `scale`.  With 3 lanes and vectors of length 3 the moved shapes (3,) and (3,3) broadcast
+    trailing-aligned: entry j of lane i is drawn from `loc[j]` — ANOTHER lane's parameter — where
+    the un-mapped site on lane 0 uses `loc[0] = 1` throughout; with vectors of length 2 the shapes
+    (3,) and (3,2) do not broadcast and the call raises although every lane's own call is fine.
+    Both sites violate `LaneAligned`. -/
+theorem C08_rule_differing_rank_cex :
+    (vmapSite Cfg.spec probeSite () rank33 3).map (·.entries) =
+      some [([0, 0], [some 1, some 11]), ([0, 1], [some 2, some 12]), ([0, 2], [some 3, some 13]),
+            ([1, 0], [some 1, some 21]), ([1, 1], [some 2, some 22]), ([1, 2], [some 3, some 23]),
+            ([2, 0], [some 1, some 31]), ([2, 1], [some 2, some 32]), ([2, 2], [some 3, some 33])] ∧
+    (laneDraw probeSite () rank33 0).map (·.entries) =
+      some [([0], [some 1, some 11]), ([1], [some 1, some 12]), ([2], [some 1, some 13])] ∧
+    (vmapSite Cfg.spec probeSite () rank32 3).isNone = true ∧
+    (laneDraw probeSite () rank32 0).map (·.entries) =
+      some [([0], [some 1, some 11]), ([1], [some 1, some 12])] ∧
+    rank33.validB 3 = true ∧ rank32.validB 3 = true ∧
+    ¬ rank33.LaneAligned ∧ ¬ rank32.LaneAligned := by
+  refine ⟨by decide, by decide, by decide, by decide, by decide, by decide, ?_, ?_⟩
+  · rw [← alignedB_iff]; decide
+  · rw [← alignedB_iff]; decide
+
+/-- the nest model (`vmapNest`: `_handle_modular_vmap` applied innermost level first) with ONE level
+    is the one-level model `vmapSite` of `C08_rule_lanewise`, for the current code and both
+    pre-fix variants: same shape and entries, or both raise -/
+theorem C08_rule_nest_one_level (cfg : Cfg) (site : κ → List Nat → List (Option α) → β) (key : κ)
+    (s : Site ν α) (n : Nat) (B : List Nat) (hv : s.Valid n) (hB : laneBatchShape s = some B) :
+    match vmapSite cfg site key s n, vmapNest cfg site key [n] s.toN with
+    | some R, some R' => R'.Same R
+    | none, none => True
+    | _, _ => False :=
+  nest_one_level cfg site key s n B hv hB
+
+/-- evaluated nests (current code; sizes innermost first; entries in final index order, outermost
+    lane first; each entry = (position in the ONE call, parameter values)):
+    * a repeat (size 2) inside a 3-lane map over `a`: shape (3, 2), lane (i, j) drawn from `a[i]` at
+      position (j, i) — unbatched lanes in front, batched lanes behind, as in the C07 model;
+    * one parameter mapped `in_axes=1` outside and `0` inside, a keyword parameter mapped `0`/`0`,
+      own `sample_shape=(2,)`: lane (2, 1) carries `(m23[1][2], m32[2][1]) = (23, 32)`, the values
+      the un-mapped site gets on that lane's slices;
+    * the second form of the open finding `vmap-differing-rank`: a lane-wise scalar `a` (outer map)
+      next to an inner-mapped vector `w`: with |w| = 2 the moved shapes (3,) and (2,) do not
+      broadcast — the call raises although every lane's own call is defined; with |w| = 3 the call
+      silently returns shape (3,) pairing `a[i]` with `w[i]` instead of the 3 × 3 lanes. -/
+theorem C08_rule_nest_examples :
+    (vmapNest Cfg.spec probeSite () [2, 3] nestedRepeat).map (fun a => (a.shape, a.entries)) =
+      some ([3, 2], [([0, 0], [some 1, some 5]), ([1, 0], [some 1, some 5]), ([0, 1], [some 2, some 5]),
+                     ([1, 1], [some 2, some 5]), ([0, 2], [some 3, some 5]), ([1, 2], [some 3, some 5])]) ∧
+    ((vmapNest Cfg.spec probeSite () [2, 3] nestedBoth).map (fun a => (a.shape, a.entries.drop 10))) =
+      some ([3, 2, 2], [([0, 2, 1], [some 23, some 32]), ([1, 2, 1], [some 23, some 32])]) ∧
+    (nestLaneDraw probeSite () nestedBoth [1, 2]).map (·.entries) =
+      some [([0], [some 23, some 32]), ([1], [some 23, some 32])] ∧
+    errOf (vmapNestE Cfg.spec probeSite () [2, 3] (nestedBatched w2)) = some .broadcast ∧
+    (nestLaneDraw probeSite () (nestedBatched w2) [1, 2]).map (·.entries) = some [([], [some 3, some 8])] ∧
+    (vmapNest Cfg.spec probeSite () [3, 3] (nestedBatched w3)).map (fun a => (a.shape, a.entries)) =
+      some ([3], [([0], [some 1, some 7]), ([1], [some 2, some 8]), ([2], [some 3, some 9])]) := by
+  refine ⟨by decide, by decide, by decide, by decide, by decide, by decide⟩
+
+end VmapRule
 end Genjax
